@@ -111,6 +111,11 @@ def main(argv):
     chk_thread = None
     if tier == "thorough" and pr.ok:
         import threading
+        # fork the worker pool BEFORE the checker thread opens its pipes: a worker forked while subprocess.Popen is
+        # between creating a pipe and closing its own end would keep that end open, and the thread would wait for
+        # an end-of-file that never comes
+        from . import impl as _impl
+        _impl.pool()
 
         def _chk():
             pr.coqchk = core.run_coqchk(prop)
